@@ -89,6 +89,46 @@ func buildMenuWorld(layout nodeLayout, menu []menuItem, pick []int) *world.World
 	return b.Done()
 }
 
+// podSlotScenarios: nodes with 2-4 pod slots; every way of asking for a GPU share (fraction, gpu-memory,
+// two devices) next to whole-GPU and cpu pods. A pod that opens a new shared device brings the device's
+// reservation pod to the node.
+func podSlotScenarios(tier string) []clustermc.Scenario {
+	var menu []menuItem
+	for _, s := range []struct {
+		tag string
+		s   world.Shape
+	}{{"cpu", shCPU}, {"g1", shG1}, {"f5", shF5}, {"m10", shM10}, {"mf2", shMF2}} {
+		menu = append(menu, menuItem{tag: "pend-" + s.tag, queue: "qa", pc: "p50", pods: []world.PodSpec{{Shape: s.s}}})
+		if s.tag != "mf2" {
+			menu = append(menu, menuItem{tag: "run-" + s.tag, queue: "qa", pc: "p50", pods: []world.PodSpec{{Shape: s.s, State: world.StRunning, Node: "n1"}}})
+		}
+	}
+	var out []clustermc.Scenario
+	cfgs := []schedrun.Config{{}, {Placement: "spread", ConsolidatingReclaim: true}}
+	for _, slots := range []int{2, 3, 4} {
+		lay := nodeLayout{fmt.Sprintf("slots-1n-2gpu-pods%d", slots), []world.NodeOpt{{Name: "n1", CPU: "8", Mem: "8Gi", Pods: slots, GPUs: 2, GPUMemMiB: 40000}}}
+		for _, pick := range multisetsUpTo(len(menu), 3) {
+			pending := false
+			for _, i := range pick {
+				pending = pending || menu[i].pods[0].State == ""
+			}
+			if !pending {
+				continue
+			}
+			w := buildMenuWorld(lay, menu, pick)
+			if oracle.Oversubscribed(w) {
+				continue
+			}
+			tags := ""
+			for _, i := range pick {
+				tags += menu[i].tag + ","
+			}
+			out = append(out, clustermc.Scenario{Name: lay.tag + ":" + tags, World: w, Configs: cfgs})
+		}
+	}
+	return out
+}
+
 func capScenarios(tier string) []clustermc.Scenario {
 	menu := capMenu()
 	k := 3
@@ -249,7 +289,7 @@ func C01() *clustermc.Family {
 	return &clustermc.Family{
 		Property:  "C01",
 		Scenarios: func(tier string) []clustermc.Scenario {
-			out := append(append(capScenarios(tier), extScenarios(tier)...), podShapeScenarios(tier)...)
+			out := append(append(append(capScenarios(tier), extScenarios(tier)...), podShapeScenarios(tier)...), podSlotScenarios(tier)...)
 			// fractional capacity that is only terminating must not be handed to a bind either: the share
 			// grammar's worlds with a terminating sharer, judged by the per-device clauses as well
 			for _, sc := range shareScenarios(tier) {
